@@ -2,7 +2,7 @@ SPEC = {
     'id': 'C03',
     'harness': 'hC03',
     'coq_dir': 'C03',
-    'claimed': False,
+    'claimed': True,
     'theorems': [
         'C03_complete', 'C03_complete_present', 'C03_absent_no_proof',
         'C03_sound', 'C03_sound_struct', 'C03_sound_injective',
